@@ -22,7 +22,7 @@ import (
 func init() { register(&Engine{Name: "C11", Run: runC11}) }
 
 func c11Domain() Domain {
-	return Domain{EmptyStringElems: true, NilPtrElems: true, ZeroTimeElems: true, BigStrings: true, BigBinaries: true,
+	return Domain{Untyped: true, EmptyStringElems: true, NilPtrElems: true, ZeroTimeElems: true, BigStrings: true, BigBinaries: true,
 		FarDates: true, AllDoubles: true, OddMaps: true, MaxListLen: 8, MaxMapLen: 4}
 }
 
@@ -350,9 +350,24 @@ func (st *c11State) histOp(kind int) {
 			}
 		})
 		data := buf.Bytes()
+		// a stream consumer does not know n: it reads until a read fails. Sometimes the history reads
+		// once past the end (the ordinary end of stream), sometimes the peer dies inside a later value.
+		reads := n
+		switch ch.Intn(4, "stream.tail") {
+		case 1:
+			reads = n + 1
+			st.o.Probes["continued read failed at the ordinary end of the stream"]++
+		case 2:
+			if len(data) > 1 {
+				data = data[:1+ch.Intn(len(data)-1, "stream.cut")]
+				reads = n + 1
+				st.o.Faults["stream cut before a continued read"]++
+			}
+		}
 		rd := bufio.NewReader(bytes.NewReader(data))
-		for i := 0; i < n; i++ {
+		for i, failed := 0, false; i < reads && !failed; i++ {
 			i := i
+			failed = true // a panic counts as a failed read too
 			st.around("stream read", nil, data, func() {
 				var v interface{}
 				var err error
@@ -363,6 +378,7 @@ func (st *c11State) histOp(kind int) {
 				}
 				if err == nil {
 					st.keepVal("stream read", v)
+					failed = false
 				}
 			})
 		}
